@@ -9,6 +9,8 @@ pub fn run(ctx: &Ctx) {
         Box::new(|| crate::c08::explore(ctx, &obs::cm_spec)),
         Box::new(|| crate::c09::explore(ctx, &obs::bloom_spec)),
         Box::new(|| crate::c10::explore(ctx, &obs::td_spec)),
+        // u64 / String Frequent Items images against the spec decoder (keys fi.<type>.image.*)
+        Box::new(|| crate::c11_more::fi_u64_and_strings(ctx)),
     ];
     jobs.par_iter().for_each(|j| j());
 }
